@@ -1,6 +1,6 @@
 (* C17/Properties.v — the property theorems only.  Each is closed by [exact] of a lemma from
    Proofs.v / Atomic.v / Linearizable.v and followed by Print Assumptions. *)
-From OV Require Import Common.Base C17.Model C17.Proofs C17.Atomic C17.Linearizable C17.E2E.
+From OV Require Import Common.Base C17.Model C17.Proofs C17.Atomic C17.Linearizable C17.E2E C17.Sharding.
 
 (* The sharded table (16 association lists selected by shardFor) answers every sequential history
    of Claim/Release/IsOwner/Lookup exactly as ONE flat partial map from tuples to owners does:
@@ -84,13 +84,38 @@ Theorem C17_release_by_owner :
 Proof. exact release_by_owner. Qed.
 Print Assumptions C17_release_by_owner.
 
-(* shardFor is a function of the tuple alone, always inside the array, and depends only on the low
-   nibbles of the C-VLAN, MAC[3] and MAC[5]. *)
+(* /repo's present shardFor, as transcribed in the model (not a contract, see the C17_any_sharding theorems): always
+   inside the array, and depends only on the low nibbles of the C-VLAN, MAC[3] and MAC[5]. *)
 Theorem C17_shard_deterministic :
   forall k, (shard_for k < 16)%N /\
             shard_for k = N.land (N.lxor (N.lxor (k_cvlan k) (mb k 3)) (mb k 5)) 15.
 Proof. intros k. split; [apply shard_for_lt | apply shard_for_low_bits]. Qed.
 Print Assumptions C17_shard_deterministic.
+
+(* The shard function is a FREE choice (which hash, how many shards): for EVERY sf : tuple -> lock id the
+   table run with each method body under lock sf(tuple) returns, for every sequential history, what the
+   flat specification returns ... *)
+Theorem C17_any_sharding_refines_flat_spec :
+  forall (sf : key -> nat) ops, g_run sf (g_empty) ops = snd (spec_run spec_empty ops).
+Proof. intros sf ops. apply g_run_spec. apply agrees_empty. Qed.
+Print Assumptions C17_any_sharding_refines_flat_spec.
+
+(* ... and every complete concurrent history is linearizable w.r.t. the flat specification. *)
+Theorem C17_any_sharding_linearizable :
+  forall (sf : key -> nat) progs c,
+    reach Nat.eq_dec (g_lock sf) op_is_read shard_step g_empty progs c -> quiescent c ->
+    exists lin : list (entry op ret),
+      (forall t, proj t (c_hist c) = proj t (expand lin)) /\
+      flat_legal spec_empty lin /\ NoDup (ids lin) /\
+      (forall a r b o, before (ERes a r) (EInv b o) (c_hist c) -> before a b (ids lin)).
+Proof. exact any_sharding_linearizable. Qed.
+Print Assumptions C17_any_sharding_linearizable.
+
+(* /repo's shardFor (Model.shard_idx, 16 shards) is one admissible choice *)
+Example C17_head_sharding_is_an_instance :
+  forall r o, reg_ok r -> snd (reg_step r o) = snd (g_step shard_idx (fun i => nth i r []) o).
+Proof. exact head_policy_is_an_instance. Qed.
+Print Assumptions C17_head_sharding_is_an_instance.
 
 (* MakeTupleKey always yields a 6-byte MAC and keeps a 6-byte MAC unchanged. *)
 Theorem C17_make_tuple_key :
